@@ -89,13 +89,14 @@ def extends_item(draw, names):
 def import_item(draw, names):
     form = draw(st.sampled_from(["qualified", "renamed", "star", "list"]))
     pk = names.new("Pk")
+    cmt = draw(st.sampled_from(["", "", "imported for its tanks"]))
     if form == "qualified":
-        return {"i": "import", "form": form, "path": pk + "." + names.new("C")}
+        return {"i": "import", "form": form, "path": pk + "." + names.new("C"), "comment": cmt}
     if form == "renamed":
-        return {"i": "import", "form": form, "path": pk + ".Sub", "short": names.new("S")}
+        return {"i": "import", "form": form, "path": pk + ".Sub", "short": names.new("S"), "comment": cmt}
     if form == "star":
-        return {"i": "import", "form": form, "path": pk}
-    return {"i": "import", "form": form, "path": pk, "names": [names.new("L") for _ in range(draw(st.integers(1, 3)))]}
+        return {"i": "import", "form": form, "path": pk, "comment": cmt}
+    return {"i": "import", "form": form, "path": pk, "names": [names.new("L") for _ in range(draw(st.integers(1, 3)))], "comment": cmt}
 
 
 @st.composite
@@ -181,13 +182,14 @@ def print_item(it, ind):
             m = "(" + ", ".join(parts) + ")"
         return ind + "extends " + it["path"] + m + ";\n"
     if it["i"] == "import":
+        c = ' "%s"' % it["comment"] if it.get("comment") else ""
         if it["form"] == "qualified":
-            return ind + "import %s;\n" % it["path"]
+            return ind + "import %s%s;\n" % (it["path"], c)
         if it["form"] == "renamed":
-            return ind + "import %s = %s;\n" % (it["short"], it["path"])
+            return ind + "import %s = %s%s;\n" % (it["short"], it["path"], c)
         if it["form"] == "star":
-            return ind + "import %s.*;\n" % it["path"]
-        return ind + "import %s.{%s};\n" % (it["path"], ", ".join(it["names"]))
+            return ind + "import %s.*%s;\n" % (it["path"], c)
+        return ind + "import %s.{%s}%s;\n" % (it["path"], ", ".join(it["names"]), c)
     return print_class(it["cls"], ind) + ";\n"
 
 
